@@ -9,6 +9,12 @@ def decode(p):
             return {"kind": "LEX (literal source through the lexer)", "source": bytes.fromhex(f[1]).decode("utf8", "replace")}
         except Exception:
             return p
+    if f[0] == "ST":
+        try:
+            return {"kind": "ST (expressions of one literal assign and read: shared scope, state threaded left to right)",
+                    "source": bytes.fromhex(f[1]).decode("utf8", "replace")}
+        except Exception:
+            return p
     if f[0] in ("REC", "PAR"):
         try:
             return {"kind": f[0] + " (one literal node evaluated re-entrantly / by several goroutines)", "k": int(f[1]),
@@ -23,16 +29,20 @@ def decode(p):
 
 
 SPEC = dict(
-    lean_modules=["Ecal.Props.C14", "Ecal.Props.C14Lex"],
+    lean_modules=["Ecal.Props.C14", "Ecal.Props.C14Impl", "Ecal.Props.C14Lex"],
     shards=8,
     rule=("cases = one-literal programs: every sequence of <=3 (quick) / <=4 (thorough) atoms from "
           "{'{{','}}','{','}','\\\"',\"'\",'\\n',a..f (variables holding marker-laden text, one self-reproducing), "
-          "1,+,space,x.cnt(1),x.cnt(2) (side-effect counter),'\\\\','\\u007b','\\u007d','é'} in the four literal forms, "
-          "plus random longer ones; plus kinds REC (an embedded expression re-evaluates the SAME literal node with n-1, "
-          "depth 1..4) and PAR (2..8 goroutines evaluate one literal node 300 times each with their own n); "
-          "plus kind LEX (literal sources over escape atoms in all four forms, also ill-formed ones, through the real lexer and "
+          "1,+,space,x.cnt(1),x.cnt(2) (side-effect counter),'\\\\','\\u007b','\\u007d' (markers built by escapes),'é'} in the four literal forms, "
+          "plus random longer ones; kind BIG (size scaling: 1..300 expressions x.cnt(i) / up to ~8 KB per literal, some expressions "
+          "returning marker-laden text or failing); kind ST (the expressions of one literal assign and read variables: state threaded "
+          "left to right through the shared scope, final value of v compared); kinds REC (an embedded expression re-evaluates the SAME "
+          "literal node with n-1, depth 1..4) and PAR (2..8 goroutines evaluate one literal node 300 times each with their own n); "
+          "kind LEX (literal sources over escape atoms in all four forms, also ill-formed ones, through the real lexer and "
           "the lexer model: token kinds, string values after escape processing, raw / interpolating flag); "
-          "compared: resulting string(s) and ordered side-effect log. "
+          "compared: resulting string(s) and ordered side-effect log. The model side runs the index-level loop "
+          "(Ecal.InterpImpl.impl: strings.Index, slice expressions that can panic, fuel) with a stateful evaluator. "
+          "The marker put before an error text and the unit name inside it are learnt from the real code by one probe. "
           "Non-trivial = the literal contains at least one embedded expression (model's segmentation)."),
     exhaustive="all atom sequences up to the stated length in the interpolating double-quoted form",
     trusted_base=[
@@ -40,17 +50,31 @@ SPEC = dict(
         "lexer stage: the interpolation model starts from the token value; the token value itself is compared with the lexer model "
         "(lean/Ecal/Model/Lexer.lean) by the LEX cases",
     ],
-    assumptions=["embedded expressions of generated literals do not communicate through variables (the alphabet has no assignment)"],
+    assumptions=["'written in the literal' is read as: present in the token value, i.e. after the lexer has interpreted the escape "
+                 "sequences (a marker built from \\u007b IS a marker; corpus + atoms cover it)",
+                 "the error of baseRuntime.Eval (debugger hook) that is returned together with the string is not modelled",
+                 "in the general cases the table of replacement texts is computed per expression evaluated ALONE; expressions that "
+                 "communicate through variables are covered by kind ST with a model of exactly those expressions"],
     decode=decode,
 )
 
 META = dict(
-    technique="Lean 4 theorems over a structural model of the interpolation loop + differential correspondence with Runtime.Eval",
-    level_text=("Proof: segmentation is a function of the literal alone; for every evaluator ev (even one returning markers or the "
-                "literal itself) the calls made are exactly the literal's own expressions, once, in order; output is their verbatim "
-                "concatenation; total with at most |lit|/4 evaluations. Model tied to rt_value.go by an exhaustive-for-short / random-for-long differential run."),
+    technique="Lean 4 theorems: refinement of an index-level model of the Go loop to a fold over the literal's segmentation, "
+              "uniqueness of that segmentation + differential correspondence with Runtime.Eval",
+    level_text=("Proof (Props/C14Impl.lean): the loop of stringValueRuntime.Eval modelled operation by operation (strings.Index, four "
+                "slice expressions that can panic, a for loop with fuel) and with a STATEFUL evaluator ev : state -> code -> text x state "
+                "never panics, never runs out of fuel |lit|/4+1 and returns exactly the left-to-right fold over the literal's segmentation "
+                "(impl_refines_spec); the expressions it evaluates are the literal's own, once, in order, for every evaluator "
+                "(impl_calls_own_expressions_once_in_order); the segmentation is pinned by three unfolding laws that interp alone satisfies "
+                "(interp_pair, interp_unclosed, interp_no_open, interp_unique, literal_cases); substituted text is never scanned "
+                "(substitution_not_rescanned); witnesses for rescan, slice panic and divergence on the loop as it was before the repair. "
+                "Lexer clauses (Props/C14Lex.lean): a raw literal's value is its body byte for byte, a quoted one's is the unquoted body. "
+                "Tested, not proved: that rt_value.go is this loop (differential run, exhaustive for short literals, size-scaled to 300 "
+                "expressions / 8 KB, stateful, re-entrant and concurrent evaluation of one node); the inline error marker; that the lexer "
+                "dispatches to the literal scanner (LEX cases)."),
     level_note=("Trusted: Lean kernel + propext/Classical.choice/Quot.sound; the correspondence harness; the per-expression "
-                "evaluation (ev) is the real interpreter, not modelled here."),
+                "evaluation (ev) is the real interpreter, not modelled here (the theorems hold for EVERY ev, pure or stateful; an ev "
+                "that panics or does not return is outside them — the property excludes non-terminating user code)."),
 )
 
 
